@@ -156,3 +156,29 @@ Theorem C16_line_tail_at_top : forall lx file x w tl b t1 e1 l1,
   scan lx file (x ++ [10%Z]) = ScanOk (t1 ++ [e1]) l1 ->
   view_of (scan lx file ((x ++ w ++ tl) ++ b)) = view_of (scan lx file ((x ++ [10%Z]) ++ b)).
 Proof. exact line_tail_invisible_at_top. Qed.
+
+(** Letter case at TEXT level.  The scanner is blind to ASCII letter case everywhere except in two
+    places (pinned by examples in Proofs/ScannerCase2.v): directive keywords ([.DB] is not a
+    keyword) and the base marker of a numeral ([0X1F] is the number 0 followed by an identifier).
+    For two texts equal up to letter case whose differences avoid those two places ([case_safe]),
+    scanning one succeeds iff … the other yields the same token types at the same positions with
+    values equal up to case; when only mnemonics, size suffixes, index registers, numerals (hex
+    digits) and comments were re-cased, every other token is identical ([tci']).  A re-cased
+    hexadecimal numeral has the same value. *)
+From A816 Require Import Proofs.ScannerCase1 Proofs.ScannerCase2 Proofs.ScannerCase3.
+Theorem C16_case_scan : forall lx file s s' toks lines,
+  kw_ok lx = true -> ci_text s s' -> case_safe s s' ->
+  scan lx file s = ScanOk toks lines ->
+  exists toks' lines', scan lx file s' = ScanOk toks' lines' /\ Forall2 lci lines lines' /\
+    Forall2 tlow toks toks' /\ (only_zones_recased toks toks' -> Forall2 tci' toks toks').
+Proof. exact scan_case_zones. Qed.
+Theorem C16_case_number : forall v v', lci v v' -> nth 1 v' 0%Z = nth 1 v 0%Z ->
+  eval_number v' = eval_number v.
+Proof. exact eval_number_ci. Qed.
+(** ... and the parser's instruction statement maps [tci']-related token lists to the same node up
+    to the case of the mnemonic (which code generation folds: C16_opcode_lowered) and of numerals
+    (same value).  Partial: the instruction statement only; the lifting through the statement
+    loops to [parse_program] is not proved (metamorphic twins + SCAN/PARSE ties cover it). *)
+Theorem C16_case_parse_partial : forall ts ts' f pos,
+  Forall2 tci' ts ts' -> relp Qa (popcode ts f pos) (popcode ts' f pos).
+Proof. exact parse_opcode_case_blind_partial. Qed.
